@@ -83,3 +83,323 @@ REG.add(Contract('utils.Token.__bool__', types={'self': 'tok'}, result='bool',
                  ensures=[A('nonempty', 'result == (len(self.text) > 0)')]))
 REG.add(Contract('utils.Token.__str__', types={'self': 'tok'}, result='str',
                  ensures=[A('text', 'result == self.text')]))
+
+
+# =====================================================================================================
+# Buffer: abstract view <Q, i, m>  (Q: the whole underlying item sequence, i: cursor, m: #materialised)
+#   representation map (checked at every store):  __queue == Q[:m],  __i == i,
+#   __iterator yields Q[m] next (consumed == m), __join/__init/__empty are the constructor defaults.
+# =====================================================================================================
+class BufferRep:
+    """representation map of utils.Buffer onto the view <Q,i,m> (DESIGN 5.2, A.1)"""
+
+    def __init__(self, raw='tok'):
+        self.raw = raw
+
+    def load(self, eng, st, obj, a):
+        f = st.heap[obj.a['ref']]
+        if a == '_Buffer__i':
+            return [('val', st, f['i'])]
+        if a == '_Buffer__queue':
+            Q, m = f['Q'].z, f['m'].z
+            z = SubSeq(Q, 0, m)
+            st.fact(Implies(And(0 <= m, m <= Length(Q)), Length(z) == m))
+            eng.touch(st, m)
+            return [('val', st, Val('seq', z, elem='tok', canon=obj))]
+        if a == '_Buffer__iterator':
+            return [('val', st, Val('bufiter', None, obj=obj))]
+        if a in ('_Buffer__join', '_Buffer__init', '_Buffer__empty') and a in f:
+            return [('val', st, f[a])]
+        if a in ('_Buffer__join', '_Buffer__init', '_Buffer__empty'):
+            init = eng.repo.func('utils.Buffer.__init__')
+            args = init.node.args
+            names = [x.arg for x in args.args]
+            defaults = dict(zip(names[len(names) - len(args.defaults):], args.defaults))
+            return [('val', st, eng.default_value(defaults[a[len('_Buffer__'):]], init))]
+        return None
+
+    def store(self, eng, st, obj, a, v):
+        f = st.heap[obj.a['ref']]
+        if a == '_Buffer__i':
+            f['i'] = v
+            return [('fall', st)]
+        if a in ('_Buffer__join', '_Buffer__init', '_Buffer__empty'):
+            f[a] = v
+            return [('fall', st)]
+        if a == '_Buffer__iterator':
+            if v.ty == 'seq' and v.a['elem'] == 'tok' and self.raw == 'tok':
+                f['Q'] = v
+                return [('fall', st)]
+            if v.ty == 'str' and self.raw == 'str':
+                st.assume(Length(f['Q'].z) == Length(v.z))
+                f['$src'] = v
+                return [('fall', st)]
+            raise Unsupported('Buffer over ' + v.ty)
+        if a == '_Buffer__queue' and v.ty == 'list' and not v.a['items']:
+            f['m'] = VI(0)
+            return [('fall', st)]
+        if a == '_Buffer__queue':
+            # the only store the code performs is an append: the new list must be Q[:m+1]
+            Q, m = f['Q'].z, f['m'].z
+            st.fact(Implies(And(0 <= m, m < Length(Q)), Concat(SubSeq(Q, 0, m), Unit(Q[m])) == SubSeq(Q, 0, m + 1)))
+            if self.raw == 'str' and st.ghost.get('$pending') is not None:
+                # prophecy: position of item m is the index handed to init when it is materialised
+                x = st.ghost['$pending']
+                st.assume(Tok.pos(Q[m]) == Tok.pos(x))
+            eng.oblige('%s#repmap.queue==Q[:m]' % eng.cur.key, st, And(m < Length(Q), v.z == SubSeq(Q, 0, m + 1)), 'A')
+            f['m'] = VI(m + 1)
+            return [('fall', st)]
+        raise Unsupported('store to Buffer field ' + a)
+
+
+def bufiter_hook(eng, what, payload, st):
+    if what == 'builtin':
+        name, args, kwargs, node = payload
+        if name == 'next' and args and args[0].ty == 'bufiter':
+            obj = args[0].a['obj']
+            f = st.heap[obj.a['ref']]
+            Q, m = f['Q'].z, f['m'].z
+            view = eng.view_of(obj)
+            t, e = eng.split(st, m < Length(Q))
+            outs = []
+            if e is not None:
+                outs.append(('raise', e, 'StopIteration'))
+            if t is not None:
+                eng.touch(t, m)
+                if view.repmap.raw == 'tok':
+                    outs.append(('val', t, VTok(Q[m])))
+                else:
+                    outs.append(('val', t, VS(Tok.text(Q[m]))))
+            return outs
+    return None
+
+
+REG.attr_hooks.append(bufiter_hook)
+
+BUF_INV = [A('m-lo', '0 <= self.m'), A('m-hi', 'self.m <= len(self.Q)'), A('i-lo', 'self.i >= 0'),
+           A('materialised-to-cursor', 'self.m >= min(self.i, len(self.Q))')]
+REG.view(ClassView('utils.Buffer', 'Buffer', {'Q': 'seq[tok]', 'i': 'int', 'm': 'int'}, inv=BUF_INV,
+                   repmap=BufferRep('tok')))
+
+WEAK = [A('m-lo', '0 <= self.m'), A('m-hi', 'self.m <= len(self.Q)'), A('i-lo', 'self.i >= 0')]
+KEEP = [A('inv', 'inv(self)'), A('m-grows', 'self.m >= old(self.m)')]
+C20 = ['C20']
+
+REG.add(Contract(
+    'utils.Buffer.__next__', types={'self': 'Buffer'}, result='tok', requires=WEAK, modifies=['self.i', 'self.m'],
+    ensures=[P(C20, 'item', 'result == self.Q[old(self.i)]'),
+             P(C20, 'cursor', 'self.i == old(self.i) + 1'),
+             A('m', 'self.m == max(old(self.m), old(self.i) + 1)'),
+             A('in-range', 'old(self.i) < len(self.Q)')] + KEEP,
+    raises={'StopIteration': Raises('self.i >= len(self.Q)', kind='P', props=C20,
+                                    ensures=[P(C20, 'cursor-kept', 'self.i == old(self.i)'),
+                                             A('all-materialised', 'self.m == len(self.Q)'),
+                                             A('m-grows', 'self.m >= old(self.m)')])},
+    loops={0: Loop(invariant=[A('m-lo', '0 <= self.m'), A('m-hi', 'self.m <= len(self.Q)'),
+                              A('i-kept', 'self.i == old(self.i)'), A('m-grows', 'self.m >= old(self.m)'),
+                              A('m-tight', 'self.m == old(self.m) or self.m <= self.i + 1')],
+                   decreases='len(self.Q) - self.m + 1')}))
+
+_GI_LOOP = {0: Loop(invariant=[A('m-lo', '0 <= self.m'), A('m-hi', 'self.m <= len(self.Q)'),
+                               A('i-grows', 'self.i >= old(self.i)'), A('m-grows', 'self.m >= old(self.m)'),
+                               A('materialised', 'self.i == old(self.i) or self.m >= min(self.i, len(self.Q))'),
+                               A('i-bounded', 'self.i == old(self.i) or self.i <= len(self.Q)')],
+                    decreases='len(self.Q) - self.i + 1')}
+
+REG.add(Contract(
+    'utils.Buffer.__getitem__', case='int', types={'self': 'Buffer', 'i': 'int'}, result='tok',
+    requires=BUF_INV + [A('index-nonneg', 'i >= 0')], modifies=['self.i', 'self.m'],
+    ensures=[P(C20, 'item', 'result == self.Q[i]'), P(C20, 'cursor-kept', 'self.i == old(self.i)'),
+             A('in-range', 'i < len(self.Q)')] + KEEP,
+    raises={'IndexError': Raises('i >= len(self.Q)', kind='P', props=C20,
+                                 ensures=[P(C20, 'cursor-kept', 'self.i == old(self.i)')] + KEEP)},
+    loops=_GI_LOOP))
+
+REG.add(Contract(
+    'utils.Buffer.__getitem__', case='slice', types={'self': 'Buffer', 'i': 'slice[int?,int?]'}, result='tok',
+    requires=WEAK + [A('lo-nonneg', 'i.start is None or some(i.start) >= 0'),
+                     A('hi-nonneg', 'i.stop is None or some(i.stop) >= 0'),
+                     A('materialised-or-will-be', 'i.stop is None or some(i.stop) >= self.i or '
+                                                  'self.m >= min(self.i, len(self.Q))')],
+    modifies=['self.i', 'self.m'],
+    ensures=[P(C20, 'items', 'result == tokjoin(self.Q[i.start:i.stop])'),
+             P(C20, 'cursor-kept', 'self.i == old(self.i)'),
+             A('fresh-iff-nonempty', 'fresh(result) == (len(self.Q[i.start:i.stop]) > 0)'),
+             A('m-lo', '0 <= self.m'), A('m-hi', 'self.m <= len(self.Q)'), A('m-grows', 'self.m >= old(self.m)'),
+             A('materialised-to-stop', 'i.stop is None or self.m >= min(some(i.stop) + 1, len(self.Q))'),
+             A('materialised-all', 'i.stop is None ==> self.m == len(self.Q)'),
+             A('materialised-kept', 'old(self.m) >= min(self.i, len(self.Q)) ==> self.m >= min(self.i, len(self.Q))')],
+    loops=_GI_LOOP))
+
+REG.add(Contract(
+    'utils.Buffer.peek', case='int', types={'self': 'Buffer', 'j': 'int'}, result='tok?',
+    requires=BUF_INV + [A('in-range', 'self.i + j >= 0')], modifies=['self.m'],
+    ensures=[P(C20, 'item-or-None', 'result == (self.Q[self.i + j] if self.i + j < len(self.Q) else None)')] + KEEP))
+REG.add(Contract(
+    'utils.Buffer.peek', case='range', types={'self': 'Buffer', 'j': 'tuple[int,int]'}, result='tok',
+    requires=BUF_INV + [A('lo-in-range', 'self.i + j[0] >= 0'), A('hi-in-range', 'self.i + j[1] >= 0')],
+    modifies=['self.m'],
+    ensures=[P(C20, 'items', 'result == tokjoin(self.Q[self.i + j[0]:self.i + j[1]])'),
+             A('fresh-iff-nonempty', 'fresh(result) == (len(self.Q[self.i + j[0]:self.i + j[1]]) > 0)')] + KEEP))
+
+REG.add(Contract(
+    'utils.Buffer.hasNext', types={'self': 'Buffer', 'n': 'int'}, result='bool',
+    requires=BUF_INV + [A('in-range', 'self.i + n - 1 >= 0')], modifies=['self.m'],
+    ensures=[P(C20, 'value', 'result == (self.i + n - 1 < len(self.Q) and len(self.Q[self.i + n - 1].text) > 0)')]
+    + KEEP))
+
+REG.add(Contract(
+    'utils.Buffer.forward', types={'self': 'Buffer', 'j': 'int'}, result='tok',
+    requires=BUF_INV, modifies=['self.i', 'self.m'],
+    ensures=[P(C20, 'items', 'result == tokjoin(self.Q[min(old(self.i), old(self.i) + j):max(old(self.i), old(self.i) + j)])'),
+             P(C20, 'cursor', 'self.i == old(self.i) + j'),
+             A('fresh-iff-nonempty', 'fresh(result) == (len(self.Q[min(old(self.i), old(self.i) + j):'
+                                     'max(old(self.i), old(self.i) + j)]) > 0)')] + KEEP,
+    raises={'AssertionError': Raises('self.i + j < 0', ensures=[A('cursor-kept', 'self.i == old(self.i)')] + KEEP)}))
+REG.add(Contract(
+    'utils.Buffer.backward', types={'self': 'Buffer', 'j': 'int'}, result='tok',
+    requires=BUF_INV, modifies=['self.i', 'self.m'],
+    ensures=[P(C20, 'items', 'result == tokjoin(self.Q[min(old(self.i), old(self.i) - j):max(old(self.i), old(self.i) - j)])'),
+             P(C20, 'cursor', 'self.i == old(self.i) - j'),
+             A('fresh-iff-nonempty', 'fresh(result) == (len(self.Q[min(old(self.i), old(self.i) - j):'
+                                     'max(old(self.i), old(self.i) - j)]) > 0)')] + KEEP,
+    raises={'AssertionError': Raises('self.i - j < 0', kind='P', props=C20,
+                                     ensures=[A('cursor-kept', 'self.i == old(self.i)')] + KEEP)}))
+
+REG.add(Contract(
+    'utils.Buffer.startswith', types={'self': 'Buffer', 's': 'str'}, result='bool',
+    requires=BUF_INV, modifies=['self.m'],
+    ensures=[P(C20, 'value', 'result == jointext(self.Q[self.i:self.i + len(s)]).startswith(s)')] + KEEP))
+REG.add(Contract(
+    'utils.Buffer.endswith', types={'self': 'Buffer', 's': 'str'}, result='bool',
+    requires=BUF_INV + [A('in-range', 'self.i - len(s) >= 0')], modifies=['self.m'],
+    ensures=[P(C20, 'value', 'result == jointext(self.Q[self.i - len(s):self.i]).endswith(s)')] + KEEP))
+REG.add(Contract('utils.Buffer.position', types={'self': 'Buffer'}, result='int',
+                 ensures=[P(C20, 'value', 'result == self.i')]))
+
+
+# ---------------------------------------------------------------------- anchors and jointext additivity
+def sl(Q, a, b):
+    from pyvc.sorts import pyslice
+    return pyslice(Q, a, b)
+
+
+def _buffers(st):
+    for ref, f in st.heap.items():
+        if 'Q' in f and 'i' in f and f['Q'].ty == 'seq':
+            yield ref, f
+
+
+def anchor_entry(eng, st, names):
+    for ref, f in _buffers(st):
+        st.ghost['anchors:' + ref] = [f['i'].z]
+
+
+def anchor_loop(eng, st):
+    for ref, f in _buffers(st):
+        st.ghost['anchors:' + ref] = list(st.ghost.get('anchors:' + ref, [])) + [f['i'].z]
+
+
+REG.entry_hooks.append(anchor_entry)
+REG.loop_hooks.append(anchor_loop)
+
+
+def move_facts(eng, st, binding, pre):
+    """cursor moved i0 -> i1: jointext additivity from every anchor (definitional instances of the fold)"""
+    obj = binding['self']
+    f = st.heap[obj.a['ref']]
+    Q = f['Q'].z
+    i0 = pre.heap[obj.a['ref']]['i'].z
+    i1 = f['i'].z
+    n = Length(Q)
+    st.fact(Implies(And(0 <= i0, i0 < n), JT(sl(Q, i0, i0 + 1)) == Tok.text(Q[i0])))
+    eng.touch(st, i0)
+    for a in st.ghost.get('anchors:' + obj.a['ref'], []):
+        st.fact(Implies(And(0 <= a, a <= i0, i0 <= i1, i1 <= n),
+                        JT(sl(Q, a, i1)) == Concat(JT(sl(Q, a, i0)), JT(sl(Q, i0, i1)))))
+        st.fact(Implies(And(0 <= a), JT(sl(Q, a, a)) == Empty(Str)))
+
+
+for _c in REG.contracts['utils.Buffer.forward'] + REG.contracts['utils.Buffer.__next__']:
+    _c.hooks.append(move_facts)
+
+cond_tok = Function('cond_tok', Tok, BoolSort())
+cond_buf = Function('cond_buf', TokSeq, IntSort(), BoolSort())
+
+
+def callback_hook(eng, what, payload, st):
+    if what != 'callback':
+        return None
+    fv, args = payload
+    if fv.a['abstract'] != 'cond' or len(args) != 1:
+        return None
+    x = args[0]
+    if x.ty == 'opt':
+        x = x.a['some']
+    if x.ty == 'tok':
+        return [('val', st, VB(cond_tok(x.z)))]
+    if x.ty == 'obj':
+        f = st.heap[x.a['ref']]
+        return [('val', st, VB(cond_buf(f['Q'].z, f['i'].z)))]
+    return None
+
+
+REG.attr_hooks.append(callback_hook)
+
+
+@REG.specfun('condv')
+def _condv(ctx, cond, buf, k, peek):
+    f = ctx.st.heap[buf.a['ref']]
+    Q = f['Q'].z
+    return VB(If(ops.truth(peek), cond_tok(Q[k.z]), cond_buf(Q, k.z)))
+
+
+_FU_INV = [A('i-lo', 'old(self.i) <= self.i'), A('i-hi', 'self.i <= len(self.Q)'), A('inv', 'inv(self)'),
+           A('m-grows', 'self.m >= old(self.m)'),
+           A('skipped', 'forall(k, old(self.i), self.i, not condv(condition, self, k, peek) and len(self.Q[k].text) > 0)')]
+
+REG.add(Contract(
+    'utils.Buffer.forward_until', types={'self': 'Buffer', 'condition': 'fn:cond', 'peek': 'bool'}, result='tok',
+    requires=BUF_INV, modifies=['self.i', 'self.m'],
+    raises={'AttributeError': Raises('self.i >= len(self.Q)', ensures=[A('cursor-kept', 'self.i == old(self.i)')])},
+    ensures=_FU_INV + [
+        P(C20, 'stops-at-first', 'self.i < len(self.Q) ==> condv(condition, self, self.i, peek) or '
+                                 'len(self.Q[self.i].text) == 0'),
+        P(C20 + ['C11'], 'text', 'result.text == jointext(self.Q[old(self.i):self.i])'),
+        P(['C13'], 'position', 'result.position == self.Q[old(self.i)].position'),
+        A('category-none', 'result.cat == -1')],
+    loops={0: Loop(invariant=_FU_INV + [A('c-text', 'c.text == jointext(self.Q[old(self.i):self.i])'),
+                                        A('c-pos', 'c.position == self.Q[old(self.i)].position'),
+                                        A('c-cat', 'c.cat == -1'), A('entry-in-range', 'old(self.i) < len(self.Q)')],
+                   decreases='len(self.Q) - self.i')}))
+
+_NFU_INV = [A('i-lo', 'old(self.i) <= self.i'), A('i-hi', 'self.i <= max(old(self.i), len(self.Q))'), A('inv', 'inv(self)'),
+            A('m-grows', 'self.m >= old(self.m)'), A('count', 'i == self.i - old(self.i)'),
+            A('c-text', 'c == jointext(self.Q[old(self.i):self.i])'),
+            A('skipped', 'forall(k, old(self.i), self.i, not cond_tokv(self, k) and len(self.Q[k].text) > 0)')]
+
+
+@REG.specfun('cond_tokv')
+def _cond_tokv(ctx, buf, k):
+    f = ctx.st.heap[buf.a['ref']]
+    return VB(cond_tok(f['Q'].z[k.z]))
+
+
+REG.add(Contract(
+    'utils.Buffer.num_forward_until', types={'self': 'Buffer', 'condition': 'fn:cond'}, result='int',
+    requires=BUF_INV, modifies=['self.i', 'self.m'],
+    ensures=[P(C20, 'cursor-kept', 'self.i == old(self.i)'), A('inv', 'inv(self)'), A('m-grows', 'self.m >= old(self.m)'),
+             P(C20, 'count-lo', 'result >= 0 and old(self.i) + result <= max(old(self.i), len(self.Q))'),
+             P(C20, 'skipped', 'forall(k, old(self.i), old(self.i) + result, not cond_tokv(self, k) and '
+                               'len(self.Q[k].text) > 0)'),
+             P(C20, 'stops-at-first', 'old(self.i) + result < len(self.Q) ==> cond_tokv(self, old(self.i) + result) or '
+                                      'len(self.Q[old(self.i) + result].text) == 0')],
+    loops={0: Loop(invariant=_NFU_INV, decreases='len(self.Q) - self.i')}))
+
+REG.add(Contract('utils.Buffer.__iter__', types={'self': 'Buffer'}, result='Buffer',
+                 ensures=[A('self', 'result is self')]))
+REG.add(Contract('utils.Buffer.__init__', case='tokens',
+                 types={'self': 'Buffer', 'iterator': 'seq[tok]', 'join': 'any', 'empty': 'any', 'init': 'any'},
+                 modifies=['self.Q', 'self.i', 'self.m'],
+                 ensures=[P(C20, 'sequence', 'self.Q == iterator'), P(C20, 'cursor', 'self.i == 0'),
+                          A('nothing-materialised', 'self.m == 0'), A('inv', 'inv(self)')]))
